@@ -54,3 +54,65 @@ Definition py_truthy (v : pv) : bool :=
   | PList l => match l with [] => false | _ => true end
   | PDict l => match l with [] => false | _ => true end
   end.
+
+(* ---- numbers: bool, int and exact binary floats; Python compares them exactly *)
+Definition num_parts (v : pv) : option (Z * Z) :=
+  match v with
+  | PBool b => Some ((if b then 1 else 0)%Z, 0%Z)
+  | PInt z => Some (z, 0%Z)
+  | PFloat m e => Some (m, e)
+  | _ => None
+  end.
+
+Definition is_number (v : pv) : bool :=
+  match num_parts v with Some _ => true | None => false end.
+
+Definition dy_cmp (a b : Z * Z) : comparison :=
+  let e := Z.min (snd a) (snd b) in
+  Z.compare (fst a * 2 ^ (snd a - e)) (fst b * 2 ^ (snd b - e)).
+
+(* v < c and v > c for a number v and an integer c; false for non-numbers *)
+Definition num_lt_int (v : pv) (c : Z) : bool :=
+  match num_parts v with
+  | Some p => match dy_cmp p (c, 0%Z) with Lt => true | _ => false end
+  | None => false
+  end.
+Definition num_gt_int (v : pv) (c : Z) : bool :=
+  match num_parts v with
+  | Some p => match dy_cmp p (c, 0%Z) with Gt => true | _ => false end
+  | None => false
+  end.
+
+(* Python == on the JSON universe *)
+Fixpoint py_eq (a b : pv) {struct a} : bool :=
+  match a, b with
+  | PNone, PNone => true
+  | PStr s, PStr t => String.eqb s t
+  | PList l, PList m =>
+      (fix go (l m : list pv) {struct l} : bool :=
+         match l, m with
+         | [], [] => true
+         | x :: l', y :: m' => py_eq x y && go l' m'
+         | _, _ => false
+         end) l m
+  | PDict d, PDict e =>
+      Nat.eqb (List.length d) (List.length e) &&
+      (fix go (d : list (string * pv)) {struct d} : bool :=
+         match d with
+         | [] => true
+         | (k, v) :: r =>
+             match dict_get k e with Some w => py_eq v w | None => false end && go r
+         end) d
+  | _, _ =>
+      match num_parts a, num_parts b with
+      | Some p, Some q => match dy_cmp p q with Eq => true | _ => false end
+      | _, _ => false
+      end
+  end.
+
+Fixpoint py_in_list (v : pv) (l : list pv) : bool :=
+  match l with [] => false | x :: r => py_eq v x || py_in_list v r end.
+
+Definition is_list (v : pv) : bool := match v with PList _ => true | _ => false end.
+Definition is_str (v : pv) : bool := match v with PStr _ => true | _ => false end.
+Definition is_dict (v : pv) : bool := match v with PDict _ => true | _ => false end.
